@@ -115,7 +115,7 @@ VERSION_LADDER: list[list[str]] = [
     ["1.2"], ["1.2.0.1"], ["1.2.1.0", "1.2.1"], ["1.10"], ["1.10.post3"], ["2.dev1"], ["2a0"], ["2", "2.0", "2.0.0"],
     ["2.0.1"], ["2.1"], ["2.20rc3"], ["2.20"], ["3"], ["3.0.post1"], ["3.6"], ["3.7.0"], ["3.7.1"], ["3.8"],
     ["3.8.0.post1"], ["3.9"], ["3.10", "3.10.0"], ["3.10.4"], ["3.11"], ["3.12.0a1"], ["3.12"], ["4.0"], ["10"],
-    ["2020.1"], ["1!0.dev1"], ["1!0", "1!0.0"], ["1!1.0a1"], ["1!1.0", "1!1"], ["1!1.0.post1"], ["1!2.3"], ["2!0.1"],
+    ["2020.1"], ["1!0.dev1"], ["1!0", "1!0.0"], ["1!1.0a1"], ["1!1.0", "1!1"], ["1!1.0.post1"], ["1!2.3"], ["2!0", "2!0.0"], ["2!0.1"], ["3!0"],
 ]
 
 
